@@ -622,3 +622,73 @@ fn load_known(verif_dir: &str, prop: &str) -> Vec<KnownFinding> {
     }
     out
 }
+
+/// Run one lane of the Miri crate (`/verif/miri_lane`) under `cargo +nightly miri run` and record
+/// the outcome as family `miri-lane` of this check. Thorough tier only (or VERIF_MIRI=1).
+/// A UB / data-race report with a frame under /repo is a violation; a report located purely in
+/// dependencies is logged and inconclusive; a Miri that cannot be started is inconclusive.
+pub fn miri_lane(ctx: &Ctx, lane: &'static str, many_seeds: u32) {
+    let wanted = ctx.tier == Tier::Thorough || std::env::var("VERIF_MIRI").is_ok();
+    if !wanted || ctx.replay.is_some() {
+        return;
+    }
+    let dir = format!("{}/miri_lane", ctx.verif_dir);
+    let mut flags = "-Zmiri-tree-borrows -Zmiri-ignore-leaks -Zmiri-disable-isolation".to_string();
+    if many_seeds > 1 {
+        flags.push_str(&format!(" -Zmiri-many-seeds=0..{many_seeds}"));
+    }
+    let t0 = Instant::now();
+    let out = std::process::Command::new("cargo")
+        .args(["+nightly", "miri", "run", "--offline", "-q", "--manifest-path"])
+        .arg(format!("{dir}/Cargo.toml"))
+        .args(["--", lane])
+        .env("MIRIFLAGS", &flags)
+        .env("CARGO_NET_OFFLINE", "true")
+        .env("RUSTFLAGS", "-Awarnings")
+        .env_remove("RUST_BACKTRACE")
+        .output();
+    let mut notes = Map::new();
+    notes.insert("lane".into(), json!(lane));
+    notes.insert("miri_flags".into(), json!(flags));
+    notes.insert("seeds".into(), json!(many_seeds.max(1)));
+    let outcome = match out {
+        Err(e) => Outcome::Inconclusive(format!("cargo miri could not be started: {e}")),
+        Ok(o) => {
+            let stdout = String::from_utf8_lossy(&o.stdout).to_string();
+            let stderr = String::from_utf8_lossy(&o.stderr).to_string();
+            let oks: Vec<&str> = stdout.lines().filter(|l| l.starts_with("LANE-OK")).collect();
+            notes.insert("wall_s".into(), json!(t0.elapsed().as_secs_f64()));
+            notes.insert("lane_ok_lines".into(), json!(oks));
+            let ub = stderr.contains("Undefined Behavior") || stderr.contains("Data race detected") || stderr.contains("data race");
+            if ub {
+                let in_repo = stderr.lines().any(|l| l.contains("/repo/"));
+                let excerpt: String = stderr.lines().filter(|l| l.contains("error") || l.contains("/repo/") || l.contains("-->")).take(30).collect::<Vec<_>>().join("\n");
+                if in_repo {
+                    Outcome::Violated { sig: format!("{}/miri/undefined-behaviour-or-data-race", ctx.prop), detail: json!({"lane": lane, "report": excerpt}) }
+                } else {
+                    println!("MIRI-NOTE lane={lane}: report located in dependencies only (not counted)\n{excerpt}");
+                    Outcome::Inconclusive("miri report located in dependencies only".into())
+                }
+            } else if !o.status.success() {
+                // an assertion of the lane failed (panic) or the build failed
+                let panicked = stderr.contains("panicked at");
+                let excerpt: String = stderr.lines().rev().take(25).collect::<Vec<_>>().into_iter().rev().collect::<Vec<_>>().join("\n");
+                if panicked {
+                    Outcome::Violated { sig: format!("{}/miri/lane-assertion-failed", ctx.prop), detail: json!({"lane": lane, "stderr_tail": excerpt}) }
+                } else {
+                    Outcome::Inconclusive(format!("miri lane did not run: {}", excerpt.chars().take(300).collect::<String>()))
+                }
+            } else {
+                let digests: HashSet<&str> = oks.iter().filter_map(|l| l.split_whitespace().nth(3)).collect();
+                if oks.is_empty() {
+                    Outcome::Inconclusive("miri lane printed no LANE-OK line".into())
+                } else if digests.len() > 1 {
+                    Outcome::Violated { sig: format!("{}/miri/digest-differs-across-schedules", ctx.prop), detail: json!({"lane": lane, "lines": oks}) }
+                } else {
+                    Outcome::Held { nontrivial: true, key: format!("miri-lane-{lane}") }
+                }
+            }
+        }
+    };
+    ctx.record_external("miri-lane", 0, notes, outcome);
+}
